@@ -783,3 +783,190 @@ def _in_table_data(b, k):
         if p + 12 <= k < p + 12 + n * w: return True
         p = (p + 12 + n * w + 7) // 8 * 8
     return False
+
+
+@check("C12")
+def c12(run):
+    from . import tlc as T, scanner, traces
+    import concurrent.futures as cf, subprocess
+    fd = build.build_flex()
+    rng = random.Random(run.seed)
+    q = run.tier == "quick"
+    # schedules: every interleaving of N instances x K calls, enumerated by TLC (FlexInstances)
+    sch = os.path.join(run.work, "schedules.json")
+    r = T.run("FlexInstances", cfg="MC_Instances.cfg", env={"SCHEDULES": sch}, workers=1, timeout=120)
+    run.add_tlc(r)
+    if not r.ok or not os.path.exists(sch):
+        run.error("FlexInstances failed: %s" % (r.error or r.out[-300:])); return
+    schedules = json.load(open(sch))
+    srcs = fam(run, profiles=("lit", "ops", "sc", "trail", "mix"), core=1, rnd=6 if q else 30, hand=True)[:10 if q else 50]
+    cases = units.product_unit(run, fd, srcs, [{"flavour": "r", "reject": True, "yymore": True, "instances": True, "stack": False},
+                                               {"flavour": "r", "reject": True, "yymore": True, "instances": True, "stack": False, "tablesfile": True}],
+                               tag="product", san=True)
+    ok = [c for c in cases if c.status == "ok"]
+    wd = os.path.join(run.work, "inst"); os.makedirs(wd, exist_ok=True)
+    casefile = os.path.join(wd, "cases.ndjson")
+    with open(casefile, "w") as f:
+        for c in ok: f.write(json.dumps({"id": c.id, "src": c.src}) + "\n")
+    # a ThreadSanitizer build of each scanner for the threaded runs
+    def tsan(c):
+        exe = c.gen["exe"] + ".tsan"
+        q_ = subprocess.run(["gcc", "-O1", "-g", "-w", "-D_GNU_SOURCE", "-fsanitize=thread", "-DVF_REJECT", "-DVF_YYMORE"] + (["-DVF_TABLESFILE"] if c.cfg.get("tablesfile") else []) +
+                            ["-I", fd, "-o", exe, c.gen["c"], "-lpthread"],
+                            stdout=subprocess.PIPE, stderr=subprocess.STDOUT, text=True)
+        c.tsan = exe if q_.returncode == 0 else None
+    with cf.ThreadPoolExecutor(units.NCPU) as ex: list(ex.map(tsan, ok))
+
+    def run_mode(c, ci, mode, schedule, inputs, tagname, exe=None, env=None):
+        args = [exe or c.gen["exe"], mode, ",".join(map(str, schedule)) or "0"]
+        files = []
+        for i, (inp, step) in enumerate(inputs):
+            tf = os.path.join(wd, "%s-%s-i%d.ndjson" % (c.id, tagname, i)); files.append(tf)
+            rj = json.dumps(dict(traces.reset_fields(c, ci + 1), cid=c.id))[1:-1]
+            args += [tf, rj, inp.hex(), str(step)]
+        p = subprocess.run(args, stdin=subprocess.DEVNULL, stdout=subprocess.DEVNULL, stderr=subprocess.PIPE, timeout=120,
+                           env=dict(os.environ, **traces.ENV, TSAN_OPTIONS="exitcode=66 halt_on_error=0", **({"VF_TABLES": c.gen["tables"]} if c.gen.get("tables") else {}), **(env or {})))
+        return p.returncode, p.stderr.decode(errors="replace"), files
+
+    tov = []; ncmp = 0
+    for ci, c in enumerate(ok):
+        c.alphabet = traces.alphabet_of(c.src)
+        inputs = [(bytes(rng.choice(c.alphabet) for _ in range(rng.randint(4, 14))), rng.choice([1, 2, 0])) for _ in range(3)]
+        rc, err, solo = run_mode(c, ci, "solo", [], inputs, "solo")
+        if rc != 0:
+            run.violation("inst:crash", "instances of %s run one after the other: exit %d %s" % (c.src.get("name"), rc, err[:300]), dict(cfg=c.cfg), [c.gen["l"]]); continue
+        ref = [open(f).read() for f in solo]
+        for f in solo: tov += [(c, e) for e in traces.split_executions(f)]
+        runs = [("sched", s) for s in (rng.sample(schedules, 12) if q else schedules)] + [("nest", []), ("threads", []), ("threads", [])]
+        for k, (mode, s) in enumerate(runs):
+            exe = c.tsan if (mode == "threads" and getattr(c, "tsan", None)) else None
+            rc, err, files = run_mode(c, ci, mode, s, inputs, "%s%d" % (mode, k), exe=exe)
+            ncmp += 1
+            run.note_case(dict(c=c.src.get("name"), m=mode, s=s))
+            if rc != 0 or "ThreadSanitizer" in err:
+                run.violation("inst:race" if "ThreadSanitizer" in err else "inst:crash",
+                              "instances of %s in mode %s %s: exit %d: %s" % (c.src.get("name"), mode, s, rc, err[:400]), dict(cfg=c.cfg, mode=mode), [c.gen["l"]])
+                continue
+            for i, f in enumerate(files):
+                got = open(f).read()
+                if got != ref[i]:
+                    a_, b_ = got.splitlines(), ref[i].splitlines()
+                    kk = next((j for j in range(min(len(a_), len(b_))) if a_[j] != b_[j]), min(len(a_), len(b_)))
+                    run.violation("inst:differs", "instance %d of %s behaves differently in mode %s %s than alone: event %d is %s, alone %s"
+                                  % (i, c.src.get("name"), mode, s, kk, (a_[kk] if kk < len(a_) else "<end>")[:200], (b_[kk] if kk < len(b_) else "<end>")[:200]),
+                                  dict(cfg=c.cfg, mode=mode, schedule=s), [c.gen["l"], f, solo[i]])
+                    break
+    # the solo runs themselves must be behaviours of FlexScanner
+    nacc = units._validate_list(run, tov, ok, casefile, wd, "solo")
+    run.cov["traces_validated_against_impl"] += nacc
+    run.unit("instances", scanners=len(ok), schedules=len(schedules), runs_compared_with_solo=ncmp, solo_executions_validated=nacc)
+    # prefixes: scanners generated with different prefixes link into one program without clashes
+    _prefix_unit(run, fd, srcs[:3])
+    run.sample(dict(kind="schedule", interleaving=schedules[len(schedules) // 2], instances=3, calls_each=2))
+    run.assumptions += ["'no state is raced on' is observed by ThreadSanitizer attached to the threaded runs (DESIGN.md section 9), not decided by TLC",
+                        "C++ lexer objects and c99 scanners: isolation exercised by the prefix/link unit only"]
+
+
+def _prefix_unit(run, fd, srcs):
+    """three scanners (non-reentrant aa, non-reentrant bb, reentrant cc) from different rule sets in one program"""
+    import subprocess
+    from . import scanner
+    wd = os.path.join(run.work, "prefix"); os.makedirs(wd, exist_ok=True)
+    objs = []; expect = {}
+    for pfx, src, extra in (("aa", srcs[0], ""), ("bb", srcs[1 % len(srcs)], ""), ("cc", srcs[2 % len(srcs)], " reentrant")):
+        s = json.loads(json.dumps(src))
+        for k, r in enumerate(s["rules"]): r["action"] = "{ %s_hits[%d]++; }" % (pfx, k)
+        names = ["%option noyywrap prefix=\"" + pfx + "\"" + extra] + [("%x " if c["excl"] else "%s ") + c["name"] for c in s["scs"][1:]]
+        text = "\n".join(names + ["%{", "int %s_hits[64];" % pfx, "%}"] + scanner.render_defs(s, s.get("posix", False)) + ["%%"] +
+                         [l.replace("{ VEOF(", "{ return 0; /* ").replace(") }", " */ }") if "VEOF(" in l else l for l in scanner.render_rules(s, s.get("posix", False))] + ["%%", ""])
+        lp = os.path.join(wd, pfx + ".l"); open(lp, "w", encoding="latin-1").write(text)
+        p = subprocess.run([os.path.join(fd, "flex"), "-o", os.path.join(wd, pfx + ".c"), lp], stdout=subprocess.PIPE, stderr=subprocess.PIPE, text=True)
+        q = subprocess.run(["gcc", "-w", "-c", "-o", os.path.join(wd, pfx + ".o"), os.path.join(wd, pfx + ".c")], stdout=subprocess.PIPE, stderr=subprocess.STDOUT, text=True)
+        if p.returncode or q.returncode:
+            run.violation("prefix:build", "scanner with prefix %s does not build: %s %s" % (pfx, p.stderr[:200], q.stdout[:300]), {}, [lp]); return
+        objs.append(os.path.join(wd, pfx + ".o"))
+    nm = subprocess.run(["nm", "-g", "--defined-only"] + objs, stdout=subprocess.PIPE, text=True).stdout
+    syms = {}
+    for line in nm.splitlines():
+        parts = line.split()
+        if len(parts) == 3: syms.setdefault(parts[2], 0); syms[parts[2]] += 1
+    dup = sorted(s for s, n in syms.items() if n > 1)
+    unpref = sorted(s for s in syms if s.startswith("yy"))
+    run.note_case("prefix-link"); run.note_case("prefix-symbols")
+    if dup or unpref:
+        run.violation("prefix:clash", "scanners generated with prefixes aa/bb/cc define clashing or unprefixed external symbols: duplicates %s, unprefixed %s" % (dup[:8], unpref[:8]), {}, [])
+    main = os.path.join(wd, "main.c")
+    open(main, "w").write('#include <stdio.h>\nextern int aalex(void); extern int bblex(void); typedef void *yyscan_t; extern int cclex_init(yyscan_t *); extern int cclex(yyscan_t); extern int cclex_destroy(yyscan_t);\n'
+                          'extern void *aa_scan_string(const char *); extern void *bb_scan_string(const char *); extern void *cc_scan_string(const char *, yyscan_t);\n'
+                          'extern int aa_hits[64], bb_hits[64], cc_hits[64];\n'
+                          'int main(int argc, char **argv) { yyscan_t s; int i; cclex_init(&s); aa_scan_string(argv[1]); bb_scan_string(argv[1]); cc_scan_string(argv[1], s);\n'
+                          ' aalex(); bblex(); cclex(s); cclex_destroy(s);\n for (i = 0; i < 12; i++) printf("%d %d %d\\n", aa_hits[i], bb_hits[i], cc_hits[i]); return 0; }\n')
+    l = subprocess.run(["gcc", "-w", "-o", os.path.join(wd, "all"), main] + objs, stdout=subprocess.PIPE, stderr=subprocess.STDOUT, text=True)
+    if l.returncode:
+        run.violation("prefix:link", "three scanners with different prefixes do not link into one program: %s" % l.stdout[:400], {}, []); return
+    run.unit("prefixes", objects=len(objs), external_symbols=len(syms))
+
+
+@check("C19")
+def c19(run):
+    from . import options as OP, tlc as T
+    import concurrent.futures as cf
+    fd = build.build_flex()
+    jobs = []
+    for opt, cli, fileopt, pred, kw in OP.probes(fd):
+        if cli is not None: jobs.append((opt, "cli", cli, "", pred, kw))
+        if fileopt is not None: jobs.append((opt, "file", [], fileopt, pred, kw))
+    for opt, text, pred, kw in OP.NEG:
+        jobs.append((opt, "neg", [], text, pred, kw))
+
+    def one(j):
+        opt, sp, cli, fileopt, pred, kw = j
+        b = OP.B(fd, fileopt=fileopt, cli=cli, **kw)
+        try:
+            ok, detail = pred(b)
+        except Exception as e:
+            ok, detail = False, "probe failed: %r" % e
+        o = dict(opt=opt, spelling=sp, holds=bool(ok), same=True, detail=str(detail)[:400], flex_stderr=b.ferr[:300], cc=b.cout[-300:], dig=b.digest(),
+                 cmd="flex %s  %%option %s" % (" ".join(cli), fileopt), files=[os.path.join(b.wd, "p.l")], wd=b.wd)
+        return o
+    with cf.ThreadPoolExecutor(units.NCPU) as ex:
+        obs = list(ex.map(one, jobs))
+    # command line == %option: identical scanners
+    bycli = {o["opt"]: o for o in obs if o["spelling"] == "cli"}
+    for o in obs:
+        if o["spelling"] == "file" and o["opt"] in bycli:
+            o["same"] = (o["dig"] == bycli[o["opt"]]["dig"]) or o["opt"] in ("outfile", "headerfile", "tablesfile")   # (file names differ by construction)
+    # contradictory / overridden combinations
+    for name, cli, fileopt, expect, rx in OP.PAIRS:
+        b = OP.B(fd, fileopt=fileopt, cli=cli, run=False, link=False, cxx=("-+" in cli))
+        import re as _re
+        if expect == "refuse": ok = b.frc != 0 and bool(_re.search(rx, b.ferr))
+        else: ok = b.frc == 0 and bool(_re.search(rx, b.ferr)) and "warning" in b.ferr
+        obs.append(dict(opt=name, spelling="pair", holds=ok, same=True, detail="rc=%d %s" % (b.frc, b.ferr[:200]), flex_stderr=b.ferr[:300], cc="", dig="",
+                        cmd="flex %s  %%option %s" % (" ".join(cli), fileopt), files=[os.path.join(b.wd, "p.l")], wd=b.wd))
+    for o in obs: run.note_case(dict(o=o["opt"], s=o["spelling"]))
+    run.sample(dict(kind="probe", option=obs[0]["opt"], spelling=obs[0]["spelling"], command=obs[0]["cmd"], holds=obs[0]["holds"]))
+    path = os.path.join(run.work, "cli.obs.ndjson")
+    remaining = list(obs); rounds = 0
+    while remaining and rounds < 40:
+        rounds += 1
+        with open(path, "w") as f:
+            for o in remaining: f.write(json.dumps({k: o[k] for k in ("opt", "spelling", "holds", "same")}) + "\n")
+        r = T.run("FlexCli", cfg="MC_Cli.cfg", env={"OBS": path}, workers=1, timeout=300)
+        run.add_tlc(r)
+        if r.ok: break
+        if not r.violated:
+            run.error("FlexCli failed: %s" % (r.error or "timeout")[:500]); break
+        if r.violated == "Covered":
+            run.error("option vocabulary of FlexCli not completely probed"); break
+        i = T.ints(r.last_state.get("i", "1"))[0] - 1
+        o = remaining[i]
+        run.violation("option:%s:%s:%s" % (o["opt"], o["spelling"], r.violated),
+                      "option %s (%s): %s - %s; flex: %s; cc: %s" % (o["opt"], o["cmd"], "documented effect not observed" if r.violated == "Effect" else "the %option spelling generates a different scanner than the command-line spelling",
+                                                                o["detail"][:200], o["flex_stderr"][:150].replace("\n", " | "), o["cc"][:200].replace("\n", " | ")),
+                      dict(opt=o["opt"], spelling=o["spelling"]), o["files"])
+        # the observation stays in the table (coverage), corrected, so that the others are checked too
+        o["holds"] = True; o["same"] = True
+    for o in obs: shutil.rmtree(o["wd"], ignore_errors=True)
+    run.unit("options", probes=len(obs), tlc_rounds=rounds)
+    run.assumptions += ["each option's documented effect is encoded as one probe predicate (lib/vf/options.py); table/mode options are covered by C02"]
